@@ -96,7 +96,7 @@ Lemma filter_map {A B} (f : B -> bool) (g : A -> B) l : filter f (map g l) = map
 Proof. induction l as [|x l IH]; cbn [map filter]; [reflexivity|]. destruct (f (g x)); cbn [map]; rewrite IH; reflexivity. Qed.
 
 Lemma typed_rules t xs : typed t xs = true -> forall r, In r (t_rules t) -> all3 entry_typed xs (t_inputs t) (r_in r) = true.
-Proof. unfold typed. intros H r Hr. apply andb_true_iff in H. destruct H as [H _]. apply andb_true_iff in H. destruct H as [_ H].
+Proof. unfold typed. intros H r Hr. apply andb_true_iff in H. destruct H as [_ H].
   rewrite forallb_forall in H. apply H. exact Hr. Qed.
 
 Theorem matching_hits t xs : typed t xs = true -> matching false t xs = map (eval_rule false t xs) (hits t xs).
@@ -281,25 +281,23 @@ Proof. unfold bif_min, spec_min. destruct l as [|a l]; [reflexivity|]. destruct 
   - rewrite minz_go_spec. destruct (nums l); reflexivity.
   - rewrite mins_go_spec. destruct (strs l); reflexivity. Qed.
 
-Lemma maxz_go_spec l : forallb nonnull l = true ->
+Lemma maxz_go_spec l :
   forall acc, maxz_go acc l = match nums l with Some zs => ANum (fold_right Z.max acc zs) | None => ANull end.
-Proof. induction l as [|a l IH]; intros Hn acc; cbn [maxz_go nums fold_right]; [reflexivity|].
-  cbn [forallb] in Hn. apply andb_true_iff in Hn. destruct Hn as [Ha Hl].
-  destruct a; try reflexivity; [discriminate Ha|]. rewrite (IH Hl). destruct (nums l); cbn [option_map fold_right]; [|reflexivity].
+Proof. induction l as [|a l IH]; intros acc; cbn [maxz_go nums fold_right]; [reflexivity|].
+  destruct a; try reflexivity. rewrite IH. destruct (nums l); cbn [option_map fold_right]; [|reflexivity].
   replace (if Z.ltb acc z then z else acc) with (Z.max acc z) by (destruct (Z.ltb_spec acc z); lia). rewrite fr_zmax. reflexivity. Qed.
 
-Lemma maxs_go_spec l : forallb nonnull l = true ->
+Lemma maxs_go_spec l :
   forall acc, maxs_go acc l = match strs l with Some zs => AStr (fold_right N.max acc zs) | None => ANull end.
-Proof. induction l as [|a l IH]; intros Hn acc; cbn [maxs_go strs fold_right]; [reflexivity|].
-  cbn [forallb] in Hn. apply andb_true_iff in Hn. destruct Hn as [Ha Hl].
-  destruct a; try reflexivity; [discriminate Ha|]. rewrite (IH Hl). destruct (strs l); cbn [option_map fold_right]; [|reflexivity].
+Proof. induction l as [|a l IH]; intros acc; cbn [maxs_go strs fold_right]; [reflexivity|].
+  destruct a; try reflexivity. rewrite IH. destruct (strs l); cbn [option_map fold_right]; [|reflexivity].
   replace (if N.ltb acc s then s else acc) with (N.max acc s) by (destruct (N.ltb_spec acc s); lia). rewrite fr_nmax. reflexivity. Qed.
 
-Lemma bif_max_spec l : forallb nonnull l = true -> bif_max l = spec_max l.
-Proof. unfold bif_max, spec_max. destruct l as [|a l]; [reflexivity|]. cbn [forallb]. intros Hn. apply andb_true_iff in Hn. destruct Hn as [_ Hl].
+Lemma bif_max_spec l : bif_max l = spec_max l.
+Proof. unfold bif_max, spec_max. destruct l as [|a l]; [reflexivity|].
   destruct a; try reflexivity; cbn [nums strs].
-  - rewrite (maxz_go_spec l Hl). destruct (nums l); reflexivity.
-  - rewrite (maxs_go_spec l Hl). destruct (strs l); reflexivity. Qed.
+  - rewrite maxz_go_spec. destruct (nums l); reflexivity.
+  - rewrite maxs_go_spec. destruct (strs l); reflexivity. Qed.
 
 Lemma forallb_negb_existsb {A} (f : A -> bool) l : forallb (fun x => negb (f x)) l = negb (existsb f l).
 Proof. induction l as [|x l IH]; cbn [forallb existsb]; [reflexivity|]. rewrite IH, negb_orb. reflexivity. Qed.
@@ -373,15 +371,6 @@ Proof. intros _ _ Hfg. unfold aggregate, spec_agg. rewrite (matching_hits t xs H
       * intros r Hr. apply hits_rules. rewrite Eh. exact Hr.
   - rewrite names_gt1 by (rewrite Eo; cbn [length]; lia). destruct (hits t xs); reflexivity. Qed.
 
-Lemma max_nonnull : t_policy t = PCollect AMax -> length (t_outputs t) = 1 ->
-  forallb nonnull (map (single_out t) (hits t xs)) = true.
-Proof. intros Hp H1. pose proof Hty as Hty'. unfold typed in Hty'. rewrite Hp in Hty'. apply andb_true_iff in Hty'. destruct Hty' as [_ Hnn].
-  rewrite forallb_forall in Hnn. apply forallb_forall. intros a Ha. apply in_map_iff in Ha. destruct Ha as [r [<- Hr]].
-  specialize (Hnn r (hits_rules r Hr)). destruct (wf_parts t Hwf) as [_ [Hlen _]]. destruct (Hlen r (hits_rules r Hr)) as [_ Ho].
-  pose proof (spec_outs_length t r Ho) as L. rewrite H1 in L. unfold single_out.
-  destruct (spec_outs t r) as [|b l]; cbn [length] in L; [discriminate|]. cbn [hd forallb] in *.
-  apply andb_true_iff in Hnn. tauto. Qed.
-
 Theorem hit_policy_refines : hit_policy false t xs = dt_spec t xs.
 Proof. unfold hit_policy, dt_spec.
   destruct (t_policy t) as [| | | | | |a] eqn:Hp.
@@ -427,7 +416,7 @@ Proof. unfold hit_policy, dt_spec.
     + (* C+ *) rewrite (aggregate_spec bif_sum spec_sum ASum Hp) by (auto using bif_sum_spec). destruct (hits t xs); reflexivity.
     + (* C< *) rewrite (aggregate_spec bif_min spec_min AMin Hp) by (auto using bif_min_spec). destruct (hits t xs); reflexivity.
     + (* C> *) destruct (Nat.eq_dec (length (t_outputs t)) 1) as [H1|H1].
-      * rewrite (aggregate_spec bif_max spec_max AMax Hp) by (auto using bif_max_spec, max_nonnull). destruct (hits t xs); reflexivity.
+      * rewrite (aggregate_spec bif_max spec_max AMax Hp) by (auto using bif_max_spec). destruct (hits t xs); reflexivity.
       * (* compound output: both give null *)
         destruct (wf_parts t Hwf) as [Hpos _]. unfold aggregate. rewrite names_gt1 by lia.
         destruct (t_outputs t) as [|oc [|oc2 ocs]] eqn:Eo; cbn [length] in *; try lia.
